@@ -14,7 +14,9 @@ and `http.client`'s `_read_chunked`, both modelled) and late delivery included.
 Oracle (implementation only): every delivered body is a prefix of the body sent for that very
 request; a request that reaches the server on a connection that was not clean at that moment
 (unread or unsolicited bytes / EOF pending, previous reply cut short or `Connection: close`) never
-produces a response.
+produces a response; the server only ever receives the request head of the call that is running (a request
+that was rejected on the client side between `putrequest()` and `endheaders()` never reaches it, neither alone nor
+in front of a later request).
 """
 from __future__ import annotations
 
@@ -148,7 +150,9 @@ class C03(Prop):
             "message / inside its trailer section / with EOF / inside a Content-Length or until-close body, trailer "
             "smuggling (the held tail is a complete HTTP response)} with its own body <r<id>a<attempt>>..., "
             "segmentation in {none,1,7,16} bytes per recv; per response one caller behaviour of {read all, read k + "
-            "release, release unread, drain, close, stream, partial read, untouched}. non-trivial = some connection is "
+            "release, release unread, drain, close, stream, partial read, untouched}; requests rejected on the client side "
+            "after the checkout (header value that cannot be encoded: nothing sent, no response) between ordinary "
+            "requests, cold and warm pools (family `rejected`, and 5 % of the sampled requests). non-trivial = some connection is "
             "reused or discarded as dirty")
     assumptions = ["bytes arrive when the server sends them, or (held-back tail) when the next request arrives on that "
                    "connection; a tail is only held back from inside the framed message (bytes arriving late after a "
@@ -173,6 +177,7 @@ class C03(Prop):
         mode = rng.choice(["plain", "plain", "ext", "ext", "ext", "smuggle"])
         plain = {"plain": BEHAVIOURS, "ext": dict(BEHAVIOURS, **EXT_BEHAVIOURS), "smuggle": ALL_BEHAVIOURS}[mode]
         callers = [c for c in CALLER if c is None or c[0] not in EARLY] if mode == "smuggle" else CALLER
+        rejected = False
         for rid in range(n):
             method = rng.choice(["GET", "GET", "GET", "HEAD", "POST"])
             table = HEAD_BEHAVIOURS if method == "HEAD" else plain
@@ -187,6 +192,11 @@ class C03(Prop):
             if mode == "smuggle" and release and not preload:
                 release = None
             ops.append(dict(op="req", method=method, script=script, retries=2, preload=preload, release=release))
+            if rng.random() < 0.05:
+                # rejected on the client side between putrequest() and endheaders(): no response, nothing on the wire
+                ops[-1]["badheader"] = True
+                rejected = True
+                continue
             if not preload:
                 live.append(rid)
             while live and rng.random() < 0.75:
@@ -198,10 +208,39 @@ class C03(Prop):
             how = rng.choice(callers)
             if how is not None:
                 ops.append(dict(op="disp", rid=r, how=how))
-        return {"cfg": cfg, "ops": ops, "kind": "hist%d%s" % (n, "" if mode == "plain" else "-" + mode)}
+        if rejected:
+            # a rejected request is always followed by a benign one on the same pool
+            ops.append(dict(op="req", script=["ok", "ok", "ok"], retries=2, preload=False, release=None))
+            ops.append(dict(op="disp", rid=n, how=["readall"]))
+        return {"cfg": cfg, "ops": ops, "kind": "hist%d%s%s" % (n, "" if mode == "plain" else "-" + mode,
+                                                                  "-rejected" if rejected else "")}
 
     def cases(self, rng, tier, escalate=False):
         deep = tier == "thorough" or escalate
+        # a request rejected on the client side after its checkout (a header value that cannot be encoded: nothing is
+        # sent, no response) between ordinary requests on the same pool: cold / warm pool x pool size x retry budget x
+        # preloaded / streamed followers
+        for msize in (1, 2):
+            for block in (False, True):
+                for warm in (0, 1, 2):
+                    for retries in (False, 2):
+                        for preload in (False, True):
+                            for proxy in ("none", "forward"):
+                                ops, rid = [], 0
+                                for _ in range(warm):
+                                    ops.append(dict(op="req", script=["ok", "ok", "ok"], retries=2, preload=preload, release=None))
+                                    if not preload:
+                                        ops.append(dict(op="disp", rid=rid, how=["readall"]))
+                                    rid += 1
+                                ops.append(dict(op="req", script=["ok", "ok", "ok"], retries=retries, preload=preload,
+                                                release=None, badheader=True))
+                                rid += 1
+                                for _ in range(2):
+                                    ops.append(dict(op="req", script=["ok", "ok", "ok"], retries=2, preload=preload, release=None))
+                                    if not preload:
+                                        ops.append(dict(op="disp", rid=rid, how=["readall"]))
+                                    rid += 1
+                                yield {"cfg": dict(maxsize=msize, block=block, proxy=proxy), "ops": ops, "kind": "rejected"}
         # the pairing "how the previous response was left" x "what the server still had in flight", exhaustively
         for seg in (0, 7):
             for first in ALL_BEHAVIOURS:
